@@ -567,5 +567,11 @@ func c13Models(r *h.Result, rng *h.Rng, tier string) error {
 	if err := c13JudgeTempo(r, rng.Fork(), n); err != nil {
 		return err
 	}
-	return c13ModelTempoLegacy(r, rng.Fork(), n)
+	if err := c13ModelTempoLegacy(r, rng.Fork(), n); err != nil {
+		return err
+	}
+	if err := c13HTTPTempo(r, rng.Fork(), n); err != nil {
+		return err
+	}
+	return c13ModelProfPlans(r, rng.Fork(), n)
 }
